@@ -7,12 +7,7 @@ def run(c):
     c.build(['htmloracle'])
     c.props()
     if c.replay_file and c.replay_file.get("failing_input"):
-        v = c.replay_file["failing_input"]
-        w = os.path.join(c.outdir, "witness.json")
-        json.dump({"input": v.get("input", ""), "input_hex": v.get("input_hex", ""), "options": v.get("options", {}),
-                   "fragment": v.get("fragment", True), "registry": v.get("registry", "none")}, open(w, "w"))
-        c.tool("htmloracle", ["-witness", w], sub="replay")
-        return c.finish()
+        return c.replay_any()
     n = 30000 if c.tier == "quick" else 600000
     mn = 3000 if c.tier == "quick" else 60000
     res, d = c.tool("htmloracle", ["-seed", c.seed, "-tier", c.tier, "-n", n, "-model-n", mn])
